@@ -381,7 +381,7 @@ def obs_other(V):
 
 
 LANELET_L = [[0.0, 2.0], [5.0, 2.5], [10.0, 4.0]]
-LANELET_C = [[0.0, 0.5], [5.0, 1.0], [10.0, 2.5]]
+LANELET_C = [[0.0, 0.25], [5.0, 1.25], [10.0, 2.0]]  # deliberately not the midline of the two boundaries (map converters produce such centre lines)
 LANELET_R = [[0.0, -1.0], [5.0, -0.5], [10.0, 1.0]]
 
 
